@@ -18,7 +18,8 @@ TARGETS = ['LcdbModel.Props.C14', 'LcdbModel.Props.C01']
 
 
 def run(tier):
-    return wlcheck.run(PID, tier, TAGS, THEOREMS, IMPORTS, TARGETS)
+    # Lsm.Inv evaluated on the layout and file contents the implementation reports IS the statement of C14
+    return wlcheck.run(PID, tier, TAGS, THEOREMS, IMPORTS, TARGETS, oracle_tags=('inv', 'layout'))
 
 
 def replay(path):
